@@ -208,6 +208,7 @@ TIERS = {
                   multi=dict(multi_runs=[('subflow', 400, 2, ['--budget', '2']), ('subflow', 300, 1, ['--budget', '2', '--nokeep']),
                                     ('multi', 300, 2, ['--tops', '3', '--dups', '--budget', '2']),
                                     ('multi', 150, 1, ['--tops', '3', '--budget', '1', '--cap', '1']),
+                                    ('multi', 150, 1, ['--tops', '3', '--budget', '1', '--cap', '1', '--nokeep']),
                                     ('multi', 1500, 3, ['--natural'])],
                              rand=[], explore=[], rand_budget=0, rand_pact=0, nat_runs=0),
                   # backward `next` jumps: second instances of nodes (few short runs: OBSERVE is slow on them)
